@@ -29,7 +29,7 @@ func init() {
 		r.floor("R9", 6)
 	}, checkC28)
 	register("C33", func(r *Report) {
-		r.Explanation = "Decides gating and routing structure: (R1) in the keep-alive loop the ticker is created stopped, is stopped on every state notification and re-armed only on the edge 'received state == Active'; a tick calls the ping routine; (R2) every write of the client's state goes through the wrapper that notifies the loop when the state changed; (R3) every (re)transmission of a keep-alive PINGREQ - including the ping transaction's retry callback - is dominated by a test that the state is Active; (R4) a PINGRESP is routed to the transaction that asked for it: with a keep-alive ping and a sleep transaction both pending, the dispatcher must be able to tell them apart. R3 and R4 are known findings today. (R5) the channel on which the receive loop announces state changes has capacity >= 1 as long as the keep-alive loop may wait, inside its tick case, for a packet only the receive loop can deliver (otherwise the two wait for each other); (R6) typestate of the sleep transaction: the state in which its PINGRESP / DISCONNECT handler accepts the reply is entered only by a step that sends the PINGREQ / DISCONNECT the reply answers, so a reply of another exchange is never taken for it. Not decided: 'at least once per KeepAlive period' (timing), starvation of the capacity-1 notification channel."
+		r.Explanation = "Decides gating and routing structure: (R1) in the keep-alive loop the ticker is created stopped, is stopped on every state notification and re-armed only on the edge 'received state == Active'; a tick calls the ping routine, on every path through the tick case; (R2) every write of the client's state goes through the wrapper that notifies the loop when the state changed; (R3) every (re)transmission of a keep-alive PINGREQ - including the ping transaction's retry callback - is dominated by a test that the state is Active; (R4) a PINGRESP is routed to the transaction that asked for it: with a keep-alive ping and a sleep transaction both pending, the dispatcher must be able to tell them apart. R3 and R4 are known findings today. (R5) the channel on which the receive loop announces state changes has capacity >= 1 as long as the keep-alive loop may wait, inside its tick case, for a packet only the receive loop can deliver (otherwise the two wait for each other); (R6) typestate of the sleep transaction: the state in which its PINGRESP / DISCONNECT handler accepts the reply is entered only by a step that sends the PINGREQ / DISCONNECT the reply answers, so a reply of another exchange is never taken for it, and in every other state these handlers do nothing but log (a stray reply never fails the Sleep in progress). Not decided: 'at least once per KeepAlive period' (timing), starvation of the capacity-1 notification channel."
 		r.floor("R1", 3)
 		r.floor("R2", 1)
 		r.floor("R3", 1)
@@ -978,6 +978,56 @@ func checkC33(c *Ctx, r *Report) {
 		}
 	})
 	r.cond(pingOK, "R1", fnKey(loop)+":tick-pings", c.pos(loop.Pos()), "a tick calls the ping routine", "a tick does not ping")
+	// ... on every path: no tick is skipped on a condition (traffic seen, counters, ...) - the ticker is fixed-period and
+	// is not re-armed relative to other traffic, so a skipped tick is a keep-alive period without PINGREQ
+	if pingOK {
+		var tickEntry *ssa.BasicBlock
+		for _, b := range loop.Blocks {
+			iff, ok := b.Instrs[len(b.Instrs)-1].(*ssa.If)
+			if !ok {
+				continue
+			}
+			if bo, ok := iff.Cond.(*ssa.BinOp); ok && bo.Op == token.EQL {
+				if ex, ok := bo.X.(*ssa.Extract); ok && ex.Tuple == ssa.Value(sel) && ex.Index == 0 {
+					if k, ok := constInt(bo.Y); ok && k == tickIdx {
+						tickEntry = b.Succs[0]
+					}
+				}
+			}
+		}
+		key := fnKey(loop) + ":every-tick-pings"
+		if tickEntry == nil {
+			r.undecided("R1", key, c.pos(loop.Pos()), "entry of the tick case not found")
+		} else {
+			seenB := map[*ssa.BasicBlock]bool{}
+			var skipAt ssa.Instruction
+			var walk func(b *ssa.BasicBlock)
+			walk = func(b *ssa.BasicBlock) {
+				if seenB[b] || skipAt != nil {
+					return
+				}
+				seenB[b] = true
+				for _, in := range b.Instrs {
+					if call, ok := in.(*ssa.Call); ok && staticCallee(&call.Call) == pingFn {
+						return
+					}
+					if in == ssa.Instruction(sel) {
+						skipAt = in
+						return
+					}
+					if _, ok := in.(*ssa.Return); ok {
+						skipAt = in
+						return
+					}
+				}
+				for _, n := range b.Succs {
+					walk(n)
+				}
+			}
+			walk(tickEntry)
+			r.cond(skipAt == nil, "R1", key, c.pos(loop.Pos()), "every path through the tick case calls the ping routine before the next wait", "a tick can be skipped: a path through the tick case reaches the next wait (or returns) without calling the ping routine; the ticker has a fixed period, so the client then stays silent for a whole further KeepAlive period while active")
+		}
+	}
 	// R2: notifications complete
 	var setSites []ssa.Instruction
 	for _, f := range c.repoFuncs("client") {
@@ -1274,6 +1324,69 @@ func (c *Ctx) checkAwaitingStates(r *Report, rule string, m *gwModel) {
 		}
 		n++
 		r.fn(h)
+		// in every other state the reply is not this transaction's: the handler leaves the transaction alone (a late
+		// or duplicated reply of a finished keep-alive exchange must not fail a Sleep() in progress)
+		{
+			var other *ssa.BasicBlock
+			for _, b := range h.Blocks {
+				iff, ok := b.Instrs[len(b.Instrs)-1].(*ssa.If)
+				if !ok {
+					continue
+				}
+				if bo, ok := iff.Cond.(*ssa.BinOp); ok {
+					if k, isC := constInt(bo.Y); isC && k == stateConst {
+						if bo.Op == token.NEQ {
+							other = b.Succs[0]
+						} else if bo.Op == token.EQL {
+							other = b.Succs[1]
+						}
+						break
+					}
+				}
+			}
+			k2 := fmt.Sprintf("%s:no-effect-unless-state-%d", fnKey(h), stateConst)
+			if other == nil {
+				r.undecided(rule, k2, c.pos(h.Pos()), "the branch taken in the other states was not found")
+			} else {
+				effect := ""
+				seenB := map[*ssa.BasicBlock]bool{}
+				var walk func(b *ssa.BasicBlock)
+				walk = func(b *ssa.BasicBlock) {
+					if seenB[b] {
+						return
+					}
+					seenB[b] = true
+					for _, in := range b.Instrs {
+						switch x := in.(type) {
+						case *ssa.Store:
+							if fa, ok := x.Addr.(*ssa.FieldAddr); ok {
+								if _, isAlloc := fa.X.(*ssa.Alloc); !isAlloc {
+									effect = c.instrPos(in) + ": writes " + fieldName(fa.X.Type(), fa.Field)
+								}
+							}
+						case ssa.CallInstruction:
+							cc := x.Common()
+							if cc.IsInvoke() && typeIs(cc.Value.Type(), pkUtil, "Logger") {
+								continue
+							}
+							if b, ok := cc.Value.(*ssa.Builtin); ok && b.Name() != "close" {
+								continue
+							}
+							nm := calleeName(cc)
+							if strings.HasPrefix(nm, "fmt.") || strings.HasPrefix(nm, "strconv.") {
+								continue
+							}
+							effect = c.instrPos(in) + ": calls " + nm
+						}
+					}
+					for _, nx := range b.Succs {
+						walk(nx)
+					}
+				}
+				walk(other)
+				r.cond(effect == "", rule, k2, c.pos(h.Pos()), "in every other state the handler only logs", "a "+strings.ToUpper(reply)+" that arrives while the transaction does not await it (a late or duplicated reply of another, finished exchange - e.g. of a keep-alive ping) changes the transaction ("+effect+"): a concurrent Sleep() fails because of a keep-alive exchange")
+			}
+		}
 		tname := typeStr(derefType(h.Params[0].Type()))
 		key := fmt.Sprintf("%s:state-%d-entered-with-%s", fnKey(h), stateConst, strings.ToUpper(request[reply]))
 		bad := ""
